@@ -1,12 +1,99 @@
 package main
 
 import (
+	"fmt"
 	"go/ast"
 	"go/token"
+	"go/types"
+	"strings"
 )
 
-func (x *Exec) guardCheck(st *State, pv Ptr, pos token.Pos, what string) {}
-func (x *Exec) ghostEvent(st *State, kind, site string)                  {}
-func (x *Exec) chanClose(st *State, ch Value, pos token.Pos)             {}
-func (x *Exec) checkGhostPost(st *State, pos token.Pos)                  {}
-func (c *evalCtx) ghostCall(name string, n *ast.CallExpr) (Value, bool)  { return nil, false }
+// ---- lock discipline (C14, C15): ghost map held[region of the object owning the mutex] ----
+
+func (p *Program) guardFor(root types.Type) *Guard {
+	n, ok := root.(*types.Named)
+	if !ok {
+		return nil
+	}
+	for _, cs := range p.cs {
+		if g, ok := cs.Guards[n.Obj().Name()]; ok {
+			return g
+		}
+	}
+	return nil
+}
+
+func heldTerm(st *State, r *Term) *Term {
+	return Select(ghostGet(st.ghost, "held", SArr), r)
+}
+
+// guardCheck: a load/store of a guarded field needs the object's mutex held.
+func (x *Exec) guardCheck(st *State, pv Ptr, pos token.Pos, what string) {
+	if pv.Glob != nil || len(pv.Path) == 0 || pv.Path[0].Index != nil {
+		return
+	}
+	g := x.p.guardFor(pv.Root)
+	if g == nil {
+		return
+	}
+	stt, ok := pv.Root.Underlying().(*types.Struct)
+	if !ok {
+		return
+	}
+	fname := stt.Field(pv.Path[0].Field).Name()
+	if !g.Fields[fname] {
+		return
+	}
+	if isFreshSym(pv.R) {
+		return // object under construction (not yet shared)
+	}
+	x.oblige(st, "guarded", x.pos(pos), fmt.Sprintf("%s of %s.%s only while holding %s.%s", what, g.Type, fname, g.Type, g.Mutex), g.Props, Eq(heldTerm(st, pv.R), Int(1)))
+}
+
+func (x *Exec) guardMap(st *State, m MapV, pos token.Pos, what string) {
+	if m.Guard == nil || m.GuardInfo == nil {
+		return
+	}
+	x.oblige(st, "guarded", x.pos(pos), fmt.Sprintf("map %s only while holding %s.%s", what, m.GuardInfo.Type, m.GuardInfo.Mutex), m.GuardInfo.Props, Eq(heldTerm(st, m.Guard), Int(1)))
+}
+
+// noteLock tracks Lock/Unlock calls for the per-path duties.
+func (x *Exec) noteLock(st *State, key string, args []Value, pos token.Pos) {
+	if len(args) == 0 {
+		return
+	}
+	pv, ok := args[0].(Ptr)
+	if !ok {
+		return
+	}
+	switch {
+	case strings.HasSuffix(key, ".Lock") || strings.HasSuffix(key, ".RLock"):
+		for _, r := range st.locks {
+			if same(r, pv.R) {
+				x.oblige(st, "lock-once", x.pos(pos), "one critical section per method (linearization point)", []string{"C14"}, tFalse)
+			}
+		}
+		st.locks = append(st.locks, pv.R)
+	}
+}
+
+// noLockHeld: calls through handlers / interfaces must not happen inside a critical section.
+func (x *Exec) noLockHeld(st *State, pos token.Pos, what string) {
+	if x.fc != nil && x.fc.CallsUnderLock {
+		return
+	}
+	for _, r := range st.locks {
+		x.oblige(st, "call-unlocked", x.pos(pos), what+" outside the critical section", []string{"C14", "C15"}, Eq(heldTerm(st, r), Int(0)))
+	}
+}
+
+func (x *Exec) ghostEvent(st *State, kind, site string) {}
+func (x *Exec) chanClose(st *State, ch Value, pos token.Pos) {
+	// close(ch): closing twice panics; ghost map chclosed[ch]
+	t := scT(ch)
+	cur := ghostGet(st.ghost, "chclosed", SArr)
+	x.safe(st, "close", pos, "close of nil or closed channel", And(Not(Eq(t, Int(0))), Eq(Select(cur, t), Int(0))))
+	st.ghost["chclosed"] = Store(cur, t, Int(1))
+}
+func (x *Exec) checkGhostPost(st *State, pos token.Pos)                 {}
+func (c *evalCtx) ghostCall(name string, n *ast.CallExpr) (Value, bool) { return nil, false }
